@@ -64,6 +64,9 @@ def toposort(ctx, world):
         if t.op == "loop" and t.init is not None and t.init.op == "loop" and empty_dict(t.init.init):
             C2 = t
     ok_inc = ok_first = ok_start = ok_yield = ok_edge = None
+    if C2 is None:
+        ctx.fail("A13.topo", "toposort:phases", f"{q}:phases", loc, "toposort does not build its edge-count table with an explicit work-list loop starting from an empty table and release nodes in a second loop over that table (e.g. the counting recurses over parents: its depth is then bounded by the interpreter's stack, not by memory)", "a chain of a few thousand sequential operations (a long Python loop): the backward pass dies with RecursionError / visits nodes in a different order")
+        return
     if C2 is not None:
         P1 = C2.init
         c1 = me(P1)
